@@ -61,6 +61,31 @@ ob("O-C09-observers", ["C09"], J, "c09_observers", "is_int / as_isize / as_f64 o
 ob("O-C05-length", ["C05"], J, "c05_num_length", "Num::length (absolute value) is exact for every machine integer (isize::MIN goes to the big-integer representation) and for floats; never panics", [NUM + "Num::length"], stubs=["int_or_big"],
    inlang={"filter": "$a|length", "doc": "a = the integer of the counterexample"})
 
+# ------------------------------------------------------------------------------------ jaq-std (trait-contract instances, AnyVal)
+STD = "jaq-std/src/lib.rs::"
+TIME = "jaq-std/src/time.rs::"
+FMT = ["fmt::format"]
+ob("O-C13-implode", ["C13", "C05", "C09"], S, "c13_implode_one", "implode on one code, for every value of the abstract value type: codes -255..0 give that byte, Unicode scalar values their UTF-8 encoding (Unicode table 3-6), everything else (non-integers, surrogates, > 0x10FFFF, < -255, isize::MIN) is rejected with an error; never wraps, never panics", [STD + "implode", STD + "ValTx::try_as_isize"], kind="trait-contract", stubs=FMT,
+   inlang={"filter": "[$a]|implode", "doc": "a = the integer code of the counterexample"})
+ob("O-C13-implode2", ["C13", "C05"], S, "c13_implode_two", "implode on two codes: the output is the concatenation of the per-code outputs; the first rejected code ends it with an error; empty input gives the empty string", [STD + "implode"], kind="trait-contract", label="bounded", bound="arrays of <= 2 codes, each code unconstrained", stubs=FMT)
+ob("O-C13-explode1", ["C13", "C05"], S, "c13_explode_implode_1", "explode then implode is the identity on every byte string of length <= 1 (valid or invalid UTF-8); every emitted code is a scalar value or a negated byte", [STD + "explode", STD + "Explode::next", STD + "implode"], kind="trait-contract", label="bounded", bound="all byte strings of length <= 1 (exhaustive)", stubs=FMT)
+ob("O-C13-explode2", ["C13", "C05"], S, "c13_explode_implode_2", "explode then implode is the identity on every byte string of length <= 2", [STD + "explode", STD + "Explode::next", STD + "implode"], kind="trait-contract", label="bounded", bound="all byte strings of length <= 2 (exhaustive)", stubs=FMT)
+ob("O-C13-explode3", ["C13"], S, "c13_explode_implode_3", "explode then implode is the identity on every byte string of length <= 3", [STD + "explode", STD + "Explode::next", STD + "implode"], kind="trait-contract", label="bounded", bound="all byte strings of length <= 3 (exhaustive)", stubs=FMT, tier="thorough", timeout=1800)
+ob("O-C09-round", ["C09", "C12", "C05"], S, "c09_round", "ValTx::round (floor/round/ceil) with the rounding function abstracted to any float result y: integers unchanged; finite y in [-2^63, 2^63) becomes exactly that integer; finite y outside goes through decimal text (exact); non-finite y stays a float; non-numbers are an error", [STD + "ValTx::round"], kind="trait-contract", stubs=FMT,
+   inlang={"filter": "$a|round", "doc": "a = the float of the counterexample"})
+ob("O-C05-i32", ["C05"], S, "c05_try_as_i32", "try_as_i32 (exit codes, ldexp-style arguments): the exact integer or an error, never a truncation", [STD + "ValTx::try_as_i32"], kind="trait-contract", stubs=FMT)
+ob("O-C20-epoch", ["C20", "C05"], S, "c20_epoch_to_timestamp", "epoch_to_timestamp: jiff receives exactly i * 10^6 microseconds for every machine integer i (computed in i128) or an error is returned - never a wrapped product; floats pass (f * 10^6) as i64, and a non-finite input never becomes an instant jiff accepts (NaN is an error, never the epoch); non-numbers are errors", [TIME + "epoch_to_timestamp"], kind="trait-contract", stubs=["from_microsecond", "fmt::format"],
+   inlang={"filter": "$a|gmtime", "doc": "a = the number of the counterexample"})
+ob("O-C20-iso", ["C20", "C05"], S, "c20_to_iso8601", "to_iso8601: machine integers are passed to jiff unchanged as whole seconds; other numbers as for epoch_to_timestamp", [TIME + "to_iso8601"], kind="trait-contract", stubs=["from_microsecond", "from_second", "fmt::format"],
+   inlang={"filter": "$a|todate", "doc": "a = the number of the counterexample"})
+ob("O-C20-back", ["C20"], S, "c20_timestamp_to_epoch", "timestamp_to_epoch: whole seconds come back as the exact machine integer, fractional instants as microseconds / 10^6", [TIME + "timestamp_to_epoch"], kind="trait-contract", stubs=["as_second", "as_microsecond"], solver="cvc5")
+ob("O-C20-array", ["C20", "C05"], S, "c20_array_fields", "array_to_datetime: DateTime::new receives exactly (year, month + 1, day, hour, minute) as mathematical integers whenever it is called; a field that is not a machine integer or does not fit its range gives None - never a wrapped or saturated value, never a panic", [TIME + "array_to_datetime"], kind="trait-contract", stubs=["DateTime::new"],
+   inlang={"filter": "[$a,$b,$c,$d,$e,0]|mktime", "doc": "a..e = year, month, day, hour, minute of the counterexample"})
+ob("O-C20-array-short", ["C20", "C05"], S, "c20_array_short", "array_to_datetime: arrays with fewer than 6 elements are rejected without calling jiff", [TIME + "array_to_datetime"], kind="trait-contract", label="bounded", bound="arrays of length 0..5")
+ob("O-C20-seconds", ["C20", "C05"], S, "c20_array_seconds", "array_to_datetime, seconds field: a second value inside the i8 range is passed as its floor; NaN and out-of-range values are never turned into a valid second 0..=59; a non-number gives None", [TIME + "array_to_datetime"], kind="trait-contract", stubs=["DateTime::new"],
+   inlang={"filter": "[2000,0,1,0,0,$a]|mktime", "doc": "a = the seconds value of the counterexample"})
+ob("O-C11-once", ["C11"], S, "c11_once_or_empty", "once_or_empty: Ok(Some x) -> [Ok x], Ok(None) -> [], Err e -> [Err e]", [STD + "once_or_empty"], kind="contract")
+
 CFG = {
     "trusted_base": [
         "Kani 0.68.0 (MIR->GOTO translation of the pinned nightly's core/alloc)",
@@ -91,6 +116,18 @@ CFG = {
             "explanation": "Exactness of + - neg % on machine integers against i128 arithmetic for all 2^128 operand pairs, routing of * through checked_mul, fall-back entered with the same operands; result kinds and IEEE values of every mixed / float operation (+ - * /) bit for bit; observers. The big-integer fall-back itself (num-bigint) is replaced by a ghost-recording stub.",
             "not_decided": "BigInt x BigInt arithmetic (num-bigint), which operator the fall-back closure applies (pinned only by the test suite), float % values (fmod), object +/* merging, array -, string / splitting, Dec operands, Val-level dispatch",
             "assumptions": ["core::isize::checked_mul is the exact product when Some, and the primitive isize % is the truncated remainder (64x64->128 multiplier / divider equivalences are SAT-hard; trusted to core)"],
+        },
+        "C13": {
+            "level": "other",
+            "explanation": "Trait-contract instances of the real implode / explode (generic over the value type, instantiated with the abstract AnyVal): implode is decided per code for every value (complete), explode;implode = id on every byte string up to the stated length (bounded, exhaustive within the bound, unwinding assertions on).",
+            "not_decided": "character positions (skip_take_chars, indices, match offsets), @base64/@uri/@html/@sh/@csv/@tsv codecs (aho-corasick, base64, urlencoding), split/join, ascii_downcase/upcase (bstr), tobytes/tostring, strings longer than the bound",
+            "assumptions": ["bstr::decode_utf8 is executed symbolically as compiled (the result covers jaq composed with it)", "alloc::fmt::format (error-message rendering) is replaced by a constant"],
+        },
+        "C20": {
+            "level": "proof",
+            "explanation": "The conversions jaq owns around jiff, as trait-contract instances over the abstract value type, with jiff's constructors/accessors replaced by ghost-recording stubs: what is passed to Timestamp::from_microsecond / from_second / DateTime::new is the exact mathematical value for every machine integer and every float, or an error / None is returned. Loop-free; complete.",
+            "not_decided": "agreement with the proleptic Gregorian calendar, datetime_to_array's field extraction, weekday / day-of-year, strftime / strptime inverse, RFC 3339 parsing, the year range (all inside jiff); microsecond exactness of f * 10^6 beyond what IEEE gives",
+            "assumptions": ["jiff's constructors and accessors are replaced by ghost-recording stubs (jiff itself is not verified)", "alloc::fmt::format (error-message rendering) is replaced by a constant"],
         },
     },
     "obligations": OBS,
